@@ -222,6 +222,18 @@ func init() {
 		mt := fn.Signature.Results().At(0).Type().Underlying().(*types.Map)
 		in.nextObj++
 		m := &MapObj{ID: in.nextObj, KT: mt.Key(), VT: mt.Elem()}
+		// a RawQuery assigned since parsing (a Values.Encode() result) is what Query() parses now
+		ut := derefType(fn.Signature.Recv().Type())
+		if rq, _ := in.load(p).(*StructV).F[fieldIndex(ut, "RawQuery")].(*smt.Term); rq != nil && !(rq.Const && rq.Str == "") {
+			enc, _ := in.Ghost["urlenc:"+rq.S].([][2]Value)
+			if enc == nil {
+				in.end("unmodelled", "URL.Query() of a RawQuery that is not a Values.Encode() result at %s", in.where())
+			}
+			for _, kv := range enc {
+				m.Entries = append(m.Entries, MapEntry{K: kv[0], V: kv[1]})
+			}
+			return m
+		}
 		if ug != nil {
 			for _, kv := range ug.Params {
 				et := mt.Elem().Underlying().(*types.Slice).Elem()
@@ -258,8 +270,18 @@ func init() {
 				parts = append(parts, smt.StrLit(url.QueryEscape(e.k)+"="), in.QEsc(v.(*smt.Term)))
 			}
 		}
-		in.X.noteAssumption("net/url.Values.Encode: keys sorted, key=value pairs joined by & with QueryEscape applied to both")
-		return smt.StrConcat(parts...)
+		in.X.noteAssumption("net/url.Values.Encode: keys sorted, key=value pairs joined by & with QueryEscape applied to both; parsing such a string back yields the same keys and values")
+		out := smt.StrConcat(parts...)
+		var back [][2]Value
+		for _, e := range es {
+			// a copy of the value list (ParseQuery builds fresh slices)
+			vs := append([]Value{}, e.v...)
+			et := fn.Signature.Recv().Type().Underlying().(*types.Map).Elem().Underlying().(*types.Slice).Elem()
+			arr := in.newObject(types.NewArray(et, int64(len(vs))), &ArrayV{E: vs}, "qv")
+			back = append(back, [2]Value{smt.StrLit(e.k), &SliceV{Arr: arr, Len: len(vs), Cap: len(vs)}})
+		}
+		in.Ghost["urlenc:"+out.S] = back
+		return out
 	}
 	models["(*net/url.URL).String"] = func(in *Interp, fn *ssa.Function, a []Value) Value {
 		p := a[0].(*Ptr)
